@@ -1404,6 +1404,10 @@ func (c *FnCtx) loopSpec() (*LoopSpec, int) {
 	if c.inlineDepth > 0 || c.spec == nil {
 		return nil, ord
 	}
+	if m, ok := c.loopRemap[ord]; ok {
+		// loops were added or removed since the contracts were written (locals.go)
+		ord = m
+	}
 	return c.spec.Loops[ord], ord
 }
 
